@@ -477,7 +477,9 @@ fn witness_roundtrip(w: &mut World, wit: usize, s: &mut Src, budget: usize) -> R
 /// single malformed request lines (complete, CRLF-terminated)
 const GARBAGE_LINES: [&[u8]; 4] = [b"BADMETHOD / HTTP/1.1\r\n", b"GET /x HTTP/9.9\r\n", b"GET\r\n", b"\0\xff\xfe garbage\r\n"];
 
-const GARBAGE: [&[u8]; 20] = [
+/// well-formed requests whose URI has a multi-byte character at every small offset (they are
+/// yielded, without a tag; an adversary may send them like anything else)
+const ODD_VALID: [&[u8]; 8] = [
     b"GET /\xc3\xa9 HTTP/1.1\r\n\r\n",
     b"GET /a\xc3\xa9 HTTP/1.1\r\n\r\n",
     b"GET /ab\xc3\xa9/x HTTP/1.1\r\n\r\n",
@@ -486,6 +488,9 @@ const GARBAGE: [&[u8]; 20] = [
     b"GET /abcde\xc3\xa9/x HTTP/1.1\r\n\r\n",
     b"GET /abcdef\xe4\xb8\xad/x HTTP/1.1\r\n\r\n",
     b"GET http:/\xc3\xa9/x HTTP/1.1\r\n\r\n",
+];
+
+const GARBAGE: [&[u8]; 12] = [
     b"PUT / HTTP/1.1\r\nContent-Length: 18446744073709551616\r\n\r\n",
     b"PUT / HTTP/1.1\r\nContent-Length: 99999999999999999999999999999999999999999\r\n\r\n",
     b"PUT / HTTP/1.1\r\nContent-Length: 18446744073709551615\r\n\r\n",
@@ -543,7 +548,7 @@ fn adversary_op(w: &mut World, s: &mut Src, a: usize, obs: &mut Obs) {
                 w.send_raw(a, &g);
                 obs.label("adversary_long_binary_garbage");
             } else {
-                let g = GARBAGE[s.below(GARBAGE.len())];
+                let g = if s.chance(70) { ODD_VALID[s.below(ODD_VALID.len())] } else { GARBAGE[s.below(GARBAGE.len())] };
                 w.send_raw(a, g);
             }
             obs.label("adversary_garbage");
@@ -812,7 +817,7 @@ fn c09_macro(input: &Input, obs: &mut Obs) -> Result<(), Fail> {
                 }
                 3 => {
                     w.clients[adv].dirty = true;
-                    w.send_raw(adv, GARBAGE[ops.len() % GARBAGE.len()]);
+                    w.send_raw(adv, if ops.len() % 3 == 2 { ODD_VALID[ops.len() % ODD_VALID.len()] } else { GARBAGE[ops.len() % GARBAGE.len()] });
                 }
                 4 => {
                     w.send_request(adv, &ReqSpec { method: 1, version: 1, body: 50, expect: false, extra_headers: 1, body_kind: 0 }, &[30]);
